@@ -1,12 +1,21 @@
+import os
+
 from .props import HDR, standard
 
 
+def _replace():
+    """Teeth test hook: VERIF_C20_REPLACE="lib/controller/federation/list.go=/verif/build/tmp/mut/list.go[,...]" overlays
+    scratch copies of repo files (never set by a registered command)."""
+    v = os.environ.get("VERIF_C20_REPLACE", "")
+    return dict(kv.split("=", 1) for kv in v.split(",") if "=" in kv) or None
+
+
 def run(ctx):
-    n = {"quick": 600, "thorough": 12000}[ctx.tier]
+    n = {"quick": 1000, "thorough": 30000}[ctx.tier]
 
     def stages(ctx, mult, suffix, off):
         ctx.stage("c20" + suffix, "lib/controller/federation", "federation", ["C20/zz_verif_c20_test.go"], "TestVerifC20$",
-                  n * mult, HDR.format(imports="model.C20_model model.C20_run"), seed_offset=off, shard=75, pam=True,
+                  n * mult, HDR.format(imports="model.C20_model model.C20_run"), seed_offset=off, shard=75, pam=True, replace=_replace(),
                   env={"VERIF_STAGE": "c20" + suffix})
     return standard(ctx, "C20", ["model/C20_run.vo"], stages, known_bits={4: "F9"},
                     rule="random list requests through Conn.{Collection,Container,ContainerRequest,Group,Specimen,User}List with "
